@@ -133,7 +133,7 @@ def rprog(rnd):
         return out
     for f in fn:
         k = rnd.randint(0, 3)
-        args = rnd.sample(params + ['g1'], k)
+        args = rnd.sample(params + ['g1'] + [x for x in fn if x != f][:1], k)      # a parameter may carry the name of a global function: the local wins
         stmts.append({'k': 'function', 'name': f, 'args': args, 'last': bool(args) and rnd.random() < 0.3,
                       'body': body(args + gl[:2] + ['lv'], True)})
     rnd.shuffle(stmts)
